@@ -1816,6 +1816,7 @@ EXPECTED_PROBES = [
     "generator_abandoned", "generator_paused", "generator_resumed_after_other_receive", "two_async_consumers_on_one_queue", "reader_restart", "async_cancelled", "final_drain_delivered", "damaged_line_in_file",
     "file_ends_in_fragment", "fragment_ends_inside_multibyte", "receive_raised_injected_eio", "equal_clock_readings",
     "acked_record_physically_damaged", "continuous_consumer_outlived_writers", "switch_point_between_library_lines",
+    "process_forked", "process_forked_after_parent_handled_packets", "queue_object_inherited_through_fork", "reader_started_with_backlog",
 ]
 
 COMPONENTS = {
@@ -1823,7 +1824,8 @@ COMPONENTS = {
              "tatsu.packetz.compact (rle_encode/rle_decode)", "tatsu.util.asjson / fromjson", "tatsu.util.tty (tty_escape/unescape)", "tatsu.util.misc (new_id, hash2str)",
              "io.TextIOWrapper / BufferedReader / BufferedWriter / FileIO on a real tmpfs file (tell, seek, O_APPEND, incremental UTF-8 decoder)", "asyncio tasks, async generators, cancellation"],
     "stub": ["how many bytes each raw read()/write() transfers and whether it fails (sim.fsseam.SimFileIO)", "time.monotonic_ns (granularity, cost per read, start value)",
-             "event-loop selector and loop.time (virtual time)", "thread scheduling: one baton, next task chosen by the seeded scheduler at every seam call"],
+             "event-loop selector and loop.time (virtual time)", "thread scheduling: one baton, next task chosen by the seeded scheduler at every seam call",
+             "process boundaries: nodes are threads of one interpreter; per-process copies of the module-level data and functools caches of tatsu.util.misc / tatsu.packetz.* are swapped in at every switch (sim.procspace), fork() = deep copy of the parent's; os.getpid per node; class attributes stay shared"],
 }
 
 ASSUMPTIONS = [
